@@ -610,7 +610,6 @@ def table_cases(name, obj, tier):
                       dict(taxa_colnames=tn, taxa_grp_colnames=gn, trait_colnames="ŧr", value_colname="val", ntaxaaxes=nax), "long"))
         if grp:
             cases.append(("grp-false", dict(taxa_grp_colnames=False), dict(taxa_grp_colnames=False, ntaxaaxes=nax), "long-nogrp"))
-            ncol = nax
             cases.append(("read-by-index", dict(),
                           dict(taxa_colnames=list(range(nax)), taxa_grp_colnames=list(range(nax, 2 * nax)),
                                trait_colnames="trait_0", value_colname=2 * nax + 1, ntaxaaxes=nax), "long"))
